@@ -37,6 +37,7 @@ LEVEL = {
 LEVEL["decided"] += ' sync(): the wrapper calls the very callable it was given, also when that is a functools.partial (closure environment evaluated).'
 LEVEL["decided"] += ' sync(): a callable that is not itself a coroutine function is never handed back unwrapped, whatever its attributes (a class whose instances have an async __call__).'
 LEVEL["decided"] += " (R19.5) apply takes the function positional-only: every split of the target's arguments into positional and keyword awaitables is accepted."
+LEVEL["decided"] += ' (R19.6) no attribute that only some kinds of callable have is read unconditionally in asynctools (R03.10, shared).'
 
 
 def run(ctx) -> None:
